@@ -72,16 +72,13 @@ func Parallelize(ctx context.Context, jobs []func(context.Context) error, option
 		defer cancel()
 	}
 	semaphoreC := make(chan struct{}, Parallelism()*multiplier)
-	var errs []error
-	var lock sync.Mutex
-	addError := func(err error) {
-		lock.Lock()
-		errs = append(errs, err)
-		lock.Unlock()
-	}
+	// Each error is recorded at the index of its job (a context error at the index of the
+	// job that was not dispatched because of it), so that the returned error does not depend
+	// on the order in which the jobs happen to complete.
+	jobErrs := make([]error, len(jobs))
 	var wg sync.WaitGroup
 	var stop bool
-	for _, job := range jobs {
+	for i, job := range jobs {
 		if stop {
 			break
 		}
@@ -94,12 +91,12 @@ func Parallelize(ctx context.Context, jobs []func(context.Context) error, option
 		select {
 		case <-ctx.Done():
 			stop = true
-			addError(ctx.Err())
+			jobErrs[i] = ctx.Err()
 		case semaphoreC <- struct{}{}:
 			select {
 			case <-ctx.Done():
 				stop = true
-				addError(ctx.Err())
+				jobErrs[i] = ctx.Err()
 			default:
 				job := job
 				wg.Add(1)
@@ -107,7 +104,8 @@ func Parallelize(ctx context.Context, jobs []func(context.Context) error, option
 				go func() {
 					verifhook.Hit("thread.parallelize.job_start")
 					if err := job(ctx); err != nil {
-						addError(err)
+						// Each job writes only its own element; wg.Wait orders the writes before the read.
+						jobErrs[i] = err
 						if cancel != nil {
 							cancel()
 						}
@@ -120,6 +118,12 @@ func Parallelize(ctx context.Context, jobs []func(context.Context) error, option
 		}
 	}
 	wg.Wait()
+	var errs []error
+	for _, err := range jobErrs {
+		if err != nil {
+			errs = append(errs, err)
+		}
+	}
 	switch len(errs) {
 	case 0:
 		return nil
